@@ -66,7 +66,14 @@ def _cases(draw, dmax):
         if draw(st.booleans()):
             ks = list(draw(st.permutations(ks)))
         b = {"cls": "derived", "keys": ks, "vals": draw(S.frac_values(len(ks)))}
-    return {"cfg": cfg, "op": draw(st.sampled_from(OPS)), "a": a, "b": b, "rel": rel,
+    graded = d <= 5 and draw(st.integers(0, 7)) == 0
+    if graded:
+        cfg["basis"] = None
+        cfg.pop("named", None)
+        a = draw(S.operand(d, classes=["gradeblock"]))
+        b = draw(S.operand(d, classes=["gradeblock"]))
+        rel = "indep"
+    return {"cfg": cfg, "graded": graded, "op": draw(st.sampled_from(OPS)), "a": a, "b": b, "rel": rel,
             "mode": draw(st.sampled_from(["generic", "generic", "frac", "typed"])), "cse": draw(st.booleans())}
 
 
@@ -98,7 +105,8 @@ def _values(opnd, mode, prefix):
     if mode == "generic" or opnd.get("vals") is None:
         return [Q.var(f"{prefix}{k}") for k in opnd["keys"]]
     if mode == "typed" and opnd.get("tvals"):
-        return S.decode_typed(opnd["tvals"])
+        from .. import values as V
+        return V.decode(opnd["tvals"])
     return [frac(v) for v in opnd["vals"]]
 
 
@@ -115,7 +123,7 @@ def evaluate(case):
     cfg, op = case["cfg"], case["op"]
     ref = RefAlgebra(cfg)
     Rr = R(ref.d, ref.T)
-    alg = kd.build_algebra(cfg, cse=case["cse"])
+    alg = kd.build_algebra(cfg, cse=case["cse"], graded=bool(case.get("graded")))
     ka, kb = case["a"]["keys"], case["b"]["keys"]
     va, vb = _values(case["a"], case["mode"], "a"), _values(case["b"], case["mode"], "b")
     x, y = kd.mk(alg, ka, va), kd.mk(alg, kb, vb)
@@ -165,7 +173,7 @@ def evaluate(case):
     noncanon = (not S.is_canonical(ka)) or (not S.is_canonical(kb))
     labels = [f"op:{op}", f"d:{ref.d}", f"mode:{case['mode']}", "order:noncanonical" if noncanon else "order:canonical",
               "rel:derived" if case["rel"] not in ("indep", "enum") else f"rel:{case['rel']}",
-              "basis:custom" if cfg.get("basis") else "basis:default"] + (["lazy:d>=7"] if ref.d >= 7 else [])
+              "basis:custom" if cfg.get("basis") else "basis:default"] + (["lazy:d>=7"] if ref.d >= 7 else []) + (["opt:graded"] if case.get("graded") else [])
     key = [cfg["sig"], cfg.get("start"), cfg.get("basis"), op, ka, kb, case["cse"], case["mode"]]
     return Info(nontrivial, labels, key, counters, sample={"result_keys": sorted(got)} if nontrivial else None)
 
